@@ -282,10 +282,11 @@ def install(tap, run):
     tap.function(vc, "get_region", pre=pre, post=pure(post_get_region))
     tap.function(vc, "inside", pre=pre, post=pure(post_inside))
     tap.function(vc, "pad_region", pre=pre, post=pure(post_pad))
-    tap.function(vc, "scatter_points", pre=pre, post=pure(post_scatter))
+    tap.function(vc, "scatter_points", pre=pre, post=pure(post_scatter), documented={"random_state": None, "extra_coords": None})
     tap.function(vp, "project_region", pre=pre, post=pure(post_project_region))
-    tap.function(vu, "maxabs", pre=pre, post=pure(post_maxabs))
-    tap.function(vc, "grid_coordinates", pre=pre, post=pure(post_grid))
+    tap.function(vu, "maxabs", pre=pre, post=pure(post_maxabs), documented={"nan": True})
+    tap.function(vc, "grid_coordinates", pre=pre, post=pure(post_grid),
+                 documented={"shape": None, "spacing": None, "adjust": "spacing", "pixel_register": False, "extra_coords": None, "meshgrid": True})
 
 
 # ----------------------------------------------------------------------
